@@ -33,7 +33,8 @@ import (
 //         transaction last seen on destination d, a<r> = the announce transaction of call r; kinds:
 //         ok | dup (ok twice) | wtx (ok with a transaction id nobody uses) | wact (another action) |
 //         hdr (8 bytes only) | err (action 3, bencoded reason) | errg (action 3, garbage) | short (4 bytes)
-//   wait                           (thorough) sleep until 16.5 s after the start of the case: BEP 15 retransmissions
+//   wait                           (thorough) sleep until 16 s after the latest first copy of a datagram: every unanswered
+//         transaction is retransmitted once (BEP 15: 15 s), none twice (45 s)
 //   close                          Transport.Close()
 //
 // Observation of every op, taken when the expected effects have arrived (or a bound of 2 s has passed):
@@ -111,7 +112,7 @@ type usWorld struct {
 	evC      chan usEvent
 	seen     map[uint32]int
 	client   *net.UDPAddr
-	start    time.Time
+	start    time.Time // of the case, later: arrival of the latest first copy of a datagram
 	slow     bool
 	waited   bool
 	base     [2]int
@@ -286,6 +287,9 @@ func (w *usWorld) absorb(e usEvent) {
 		x := w.dests[e.d]
 		w.seen[txid]++
 		x.connTx, x.hasConn = txid, true
+		if w.seen[txid] == 1 {
+			w.start = time.Now()
+		}
 		lab := fmt.Sprintf("c%d.%d", e.d, w.seen[txid])
 		w.rx = append(w.rx, lab)
 		delete(w.expX, lab)
@@ -307,6 +311,9 @@ func (w *usWorld) absorb(e usEvent) {
 			mark = "!newtx"
 		}
 		rq.txid, rq.hasTx = txid, true
+		if w.seen[txid] == 1 {
+			w.start = time.Now()
+		}
 		lab := fmt.Sprintf("a%d.%d", r, w.seen[txid])
 		w.rx = append(w.rx, lab+":"+usEvName(ev)+mark)
 		delete(w.expX, lab)
@@ -646,7 +653,8 @@ func execUdpShared(ops []string) []string {
 					w.expX[fmt.Sprintf("a%d.%d", rq.r, w.seen[rq.txid]+1)] = true
 				}
 			}
-			if d := time.Until(w.start.Add(16500 * time.Millisecond)); d > 0 {
+			// every transaction begun so far is retransmitted once (15 s after its first copy), none twice (45 s)
+			if d := time.Until(w.start.Add(16 * time.Second)); d > 0 {
 				time.Sleep(d)
 			}
 			obs = append(obs, w.settle(""))
@@ -885,6 +893,20 @@ func genUdpShared(r *Rng, n int, tier string) []Case {
 					g.state = 3
 				}
 			}
+		}
+		if longWait && !closed {
+			// make sure the wait sees an answered and an unanswered announce whose callers' contexts are alive
+			if dst[0] == 0 {
+				ann(0)
+			}
+			if dst[0] == 1 {
+				ops = append(ops, "reply x=c0:ok")
+				connReply(0, "ok")
+			}
+			ann(0)
+			ann(0)
+			ops = append(ops, fmt.Sprintf("reply x=a%d:ok", next-2))
+			reqs[next-2].state = 3
 		}
 		if longWait {
 			ops = append(ops, "wait")
